@@ -25,6 +25,7 @@
 -/
 import SamlVerif.Model.SPTree
 import SamlVerif.Proofs.SPStruct
+import SamlVerif.Proofs.Tree
 import SamlVerif.Generated.Facts
 
 namespace SamlVerif.Tree
@@ -497,6 +498,23 @@ theorem C01_foreign_signature_ignored (ctx : NSCtx) (c : Node) (rest out : List 
     findChildren ctx dsigNS "Signature" (c :: rest) = some out := by
   unfold findChildren
   simp [he, ht, hr, hrest, hns]
+
+/-! ### what can be edited without the key
+
+The canonical form — and with it every digest — is blind to comments and to how character data is
+divided.  An attacker may therefore insert comments into signed content at will; the signature stays
+valid (`C01_comment_free`, `C01_text_split_free`).  Soundness of the whole then rests on the reader
+extracting the same values from the edited tree: encoding/xml concatenates character data across
+comments (tested by the `comment-in-nameid` operation and the forgery oracle; not proved). -/
+
+theorem C01_comment_free (ctx : NSCtx) (pending : String) (pre post : List Node) (s : String) :
+    canonList ctx pending (pre ++ .other "comment" s :: post) = canonList ctx pending (pre ++ post) :=
+  canon_comment_insensitive ctx pending pre post s
+
+theorem C01_text_split_free (ctx : NSCtx) (pending : String) (pre post : List Node) (a b : String) :
+    canonList ctx pending (pre ++ .text false (a ++ b) :: post) =
+      canonList ctx pending (pre ++ .text false a :: .text false b :: post) :=
+  canon_text_split ctx pending pre post a b
 
 /-! ### obligations on the current source (regenerated facts): the structure the model assumes -/
 
